@@ -700,12 +700,11 @@ class RequestHandler:
                 raise http.cookies.CookieError(
                     f"Invalid cookie attribute {attr_name}={attr_value!r} for cookie {name!r}"
                 )
-        if not hasattr(self, "_new_cookie"):
-            self._new_cookie: http.cookies.SimpleCookie = http.cookies.SimpleCookie()
-        if name in self._new_cookie:
-            del self._new_cookie[name]
-        self._new_cookie[name] = value
-        morsel = self._new_cookie[name]
+        # Build the cookie on the side; it replaces any earlier cookie of the same name
+        # only once we know that it can be sent (see the end of this method).
+        new_cookie: http.cookies.SimpleCookie = http.cookies.SimpleCookie()
+        new_cookie[name] = value
+        morsel = new_cookie[name]
         if domain:
             morsel["domain"] = domain
         if expires_days is not None and not expires:
@@ -738,6 +737,18 @@ class RequestHandler:
                 "(should be lowercase)",
                 DeprecationWarning,
             )
+        # Serialize the cookie now so that anything that cannot be sent as a header
+        # (e.g. characters outside latin1) is reported to the caller. In flush() it
+        # would be too late: the headers are already marked as written by then, so no
+        # error response could be sent and the client would never get an answer.
+        httputil.HTTPHeaders().add(
+            "Set-Cookie", self._convert_header_value(morsel.OutputString(None))
+        )
+        if not hasattr(self, "_new_cookie"):
+            self._new_cookie: http.cookies.SimpleCookie = http.cookies.SimpleCookie()
+        if name in self._new_cookie:
+            del self._new_cookie[name]
+        self._new_cookie[name] = morsel
 
     def clear_cookie(self, name: str, **kwargs: Any) -> None:
         """Deletes the cookie with the given name.
